@@ -160,6 +160,9 @@ pub struct Sim {
     /// signalled when a blocked worker arrives at a yield point
     settle_cv: Condvar,
     done: std::sync::atomic::AtomicBool,
+    /// the watchdog naps on this, so that the end of an execution does not have to wait out its nap
+    done_mx: Mutex<()>,
+    done_cv: Condvar,
     watchdog_ready: std::sync::atomic::AtomicBool,
 }
 
@@ -396,8 +399,17 @@ impl Sim {
         let mut last_progress = u64::MAX;
         let mut asleep = 0u32;
         let mut stuck_since: Option<std::time::Instant> = None;
-        while !self.done.load(std::sync::atomic::Ordering::Relaxed) {
-            std::thread::sleep(std::time::Duration::from_millis(2));
+        while !self.done.load(std::sync::atomic::Ordering::SeqCst) {
+            {
+                let g = self.done_mx.lock().unwrap();
+                if self.done.load(std::sync::atomic::Ordering::SeqCst) {
+                    break;
+                }
+                let _ = self.done_cv.wait_timeout(g, std::time::Duration::from_millis(2)).unwrap();
+            }
+            if self.done.load(std::sync::atomic::Ordering::SeqCst) {
+                break;
+            }
             let mut st = self.st.lock().unwrap();
             let Holder::Worker(w) = st.holder else {
                 asleep = 0;
@@ -755,6 +767,8 @@ pub fn execute(plan: &Plan, script: Option<&[Action]>, budgets: &[u32]) -> RunRe
         cvs: (0..nw + 1).map(|_| Condvar::new()).collect(),
         settle_cv: Condvar::new(),
         done: std::sync::atomic::AtomicBool::new(false),
+        done_mx: Mutex::new(()),
+        done_cv: Condvar::new(),
         watchdog_ready: std::sync::atomic::AtomicBool::new(false),
     });
     let watchdog = {
@@ -898,7 +912,11 @@ pub fn execute(plan: &Plan, script: Option<&[Action]>, budgets: &[u32]) -> RunRe
         }
         handles[w].take().unwrap().join().expect("worker thread");
     }
-    sim.done.store(true, std::sync::atomic::Ordering::Relaxed);
+    {
+        let _g = sim.done_mx.lock().unwrap();
+        sim.done.store(true, std::sync::atomic::Ordering::SeqCst);
+        sim.done_cv.notify_all();
+    }
     let _ = watchdog.join();
     let mut st = sim.st.lock().unwrap();
     let mut results = std::mem::take(&mut st.results);
